@@ -270,6 +270,37 @@ pub fn run(rep: &'static Report) {
             rep.sample(json!({"tree": t, "files": t.files().iter().map(|f| f.0.clone()).collect::<Vec<_>>(), "expected_indexed": want}));
         }
     });
+    // conformance with the real server: initialize on a materialised tree (configuration read from
+    // its pyproject.toml), wait for the scan, ask workspace/symbol for everything — the files that
+    // contribute symbols must be the model's file set (every file of the trees defines a fixture)
+    let mut sessions = 0u64;
+    for ex in 0..EXCLUDES.len() {
+        for (r, fault) in [("plain/ws", Fault::None), ("build/ws", Fault::NonUtf8TestFile)] {
+            let t = Tree { near: Some((3, true)), skipdir: Some(("node_modules".to_string(), 2)), fault: fault.clone(), exclude: ex };
+            let sc = Scratch::new("c13srv");
+            let root = sc.path().join(r);
+            std::fs::create_dir_all(&root).unwrap();
+            t.materialize(&root);
+            let mut srv = crate::e5::Server::spawn(&[]);
+            if srv.initialize(Some(&root)).is_err() || srv.wait_scan_complete().is_err() {
+                rep.violation("real server did not finish its scan", &format!("{:?} at {}", t, r), || json!({"tree": t, "root": r}));
+                continue;
+            }
+            let syms = srv.request("workspace/symbol", json!({"query": ""})).ok().and_then(|v| v.as_array().cloned()).unwrap_or_default();
+            let prefix = format!("file://{}/", root.display());
+            let got: BTreeSet<String> = syms.iter().filter_map(|s| s["location"]["uri"].as_str().and_then(|u| u.strip_prefix(&prefix)).map(|x| x.to_string())).collect();
+            srv.shutdown();
+            sessions += 1;
+            crate::report::tick();
+            let want = t.expected();
+            if got != want {
+                let extra: Vec<&String> = got.difference(&want).collect();
+                let missing: Vec<&String> = want.difference(&got).collect();
+                rep.violation("real server: files contributing workspace symbols differ from pytest's file set", &format!("tree {:?} at {}: extra {:?}, missing {:?}", t, r, extra, missing), || json!({"tree": t, "root": r, "got": got, "expected": want}));
+            }
+        }
+    }
+    rep.set("real_server_sessions", sessions);
     rep.set("evaluations", scans.load(Ordering::Relaxed));
     rep.set("trees", trees.len() as u64);
     rep.set("root_locations", json!(roots));
@@ -279,6 +310,6 @@ pub fn run(rep: &'static Report) {
     rep.set("distinct_nontrivial", nontrivial.load(Ordering::Relaxed));
     rep.set("traces_validated_against_impl", scans.load(Ordering::Relaxed));
     rep.set("exhaustive", true);
-    rep.set("rule", "real directory trees on tmpfs: base tree {conftest.py importing support.py and support2.py, test_a.py, pkg/b_test.py, pkg/sub/conftest.py importing the root-level support3.py, notes.py} with at most 2 (quick) / 3 (thorough) deviations among: one of 8 near-pattern file names at 2 places, one of 27 ignored directory names (every SKIP_DIRECTORIES entry and *.egg-info) at depth 1..3 holding a test file and a conftest, one of 4 fault kinds (non-UTF-8 test file, non-UTF-8 imported module, dangling symlink, directory named like a test file), one of 4 exclude sets given through pyproject.toml (incl. an invalid glob mixed with a valid one); every tree is created under each root location (plain and below ancestors named like ignored directories or containing 'site-packages'; the root handed over in canonical spelling, through a symbolic link living elsewhere, and with a `..` component) and scanned with the real scan_workspace_with_excludes; oracle: the indexed file set equals the reference discovery model, and every root-relative answer and classification is identical across root locations");
+    rep.set("rule", "real directory trees on tmpfs: base tree {conftest.py importing support.py and support2.py, test_a.py, pkg/b_test.py, pkg/sub/conftest.py importing the root-level support3.py, notes.py} with at most 2 (quick) / 3 (thorough) deviations among: one of 8 near-pattern file names at 2 places, one of 27 ignored directory names (every SKIP_DIRECTORIES entry and *.egg-info) at depth 1..3 holding a test file and a conftest, one of 4 fault kinds (non-UTF-8 test file, non-UTF-8 imported module, dangling symlink, directory named like a test file), one of 4 exclude sets given through pyproject.toml (incl. an invalid glob mixed with a valid one); every tree is created under each root location (plain and below ancestors named like ignored directories or containing 'site-packages'; the root handed over in canonical spelling, through a symbolic link living elsewhere, and with a `..` component) and scanned with the real scan_workspace_with_excludes; oracle: the indexed file set equals the reference discovery model, and every root-relative answer and classification is identical across root locations; conformance: for every exclude set the real server is initialised on two trees and the files contributing workspace symbols must equal the model's set");
     rep.assume("permission-denied cannot be produced as root and is not covered; glob semantics are those of the glob crate (the model uses the same matcher, what is judged is how the scanner applies the patterns)");
 }
